@@ -1,0 +1,32 @@
+//go:build verif
+
+package generic
+
+// Contracts for the goverif VC generator (/verif). Comment-only file: it adds no code.
+
+// ---- C15: the array writer of the generic (`*`) data type ---------------------------------------------------
+// One element is written as exactly one Fprintln of exactly the element's text to the tab writer of
+// this array writer: the element is an operand (never a format string) and nothing else is written.
+
+//@ func (*arrayWriter).Write [C15]
+//@   check none
+//@   requires w != nil
+//@   ensures called("fmt.Fprintln")
+//@   at call fmt.Fprintln#* assert typeis(arg0, *tabwriter.Writer) && unbox(arg0, *tabwriter.Writer) == w.tabwriter
+//@   at call fmt.Fprintln#* assert len(arg1) == 1 && typeis(arg1[0], string) && bytesof(unbox(arg1[0], string), b)
+
+//@ func (*arrayWriter).WriteString [C15]
+//@   check none
+//@   requires w != nil
+//@   ensures called("fmt.Fprintln")
+//@   at call fmt.Fprintln#* assert typeis(arg0, *tabwriter.Writer) && unbox(arg0, *tabwriter.Writer) == w.tabwriter
+//@   at call fmt.Fprintln#* assert len(arg1) == 1 && typeis(arg1[0], string) && unbox(arg1[0], string) == s
+
+// The array readers of the generic type hand each scanned line to the callback as it is (the text
+// of the line with the generic data type; the bytes of the line).
+//@ func readArrayWithType [C15]
+//@   check none
+//@   at call dynamic:callback#* assert typeis(arg0, string) && unbox(arg0, string) == ret("(*bufio.Scanner).Text#1") && arg1 == types.Generic
+//@ func readArray [C15]
+//@   check none
+//@   at call dynamic:callback#* assert arg0 == ret("(*bufio.Scanner).Bytes#1")
